@@ -20,7 +20,7 @@ REQUIRED = ["alias.solves"]
 ASSUMPTIONS = ["results compared with == on the full 8-tuple (the code is deterministic)"]
 TIMEOUT = 1800
 STEPS = [(p, h) for p in (True, False) for h in ("same", "fresh", "copy")]
-TABLE = [("G-DEAD", 500), ("G-ACY", 250), ("G-CYC", 250), ("G-LEX", 150), ("G-TIE", 100), ("FIG55", 20), ("G-ACYNF", 150), ("G-CYCNF", 100), ("G-TINYB", 100)]
+TABLE = [("G-DEAD", 500), ("G-ACY", 250), ("G-CYC", 250), ("G-LEX", 150), ("G-TIE", 100), ("FIG55", 20), ("G-ACYNF", 150), ("G-CYCNF", 100), ("G-TINYB", 100), ("G-DUPL", 150)]
 
 
 def fig55():
@@ -116,14 +116,69 @@ def decide(gd, idx, cls, tier, rng):
     return res
 
 
+def _strip(res):
+    return {k: {f: v for f, v in e.items() if f != "total_time"} for k, e in res.items()}
+
+
+def decide_batch(idx, seed):
+    """Repeatability at the level of the batch driver: the same dict of descriptions run again (same object, deep copy, other order,
+    one game alone) must give the same entries for every game."""
+    import copy
+    from . import c06
+    cr = monitors.mods()["conditionalrewards"]
+    rng = games.case_rng(seed, PID, "BATCH", idx)
+    pool = {}
+    names = rng.sample(["g1", "g2", "alpha", "b_2", "zz"], rng.randint(2, 3))
+    for nm in names:
+        gd = None
+        while gd is None:
+            gd = c06.gen_cut(rng) if rng.random() < 0.35 else games.gen_class(rng, rng.choice(["G-ACY", "G-CYC", "G-DEAD"]))
+            if gd is not None:
+                an = analysis.Analysis(gd)
+                if not (an.stopping and an.finals_absorbing and max(an.tmax) < 300):
+                    gd = None
+        pool[nm] = games.to_solver(gd)
+    res = {"idx": idx, "verdict": "held", "stats": {"batch_pools": 1, "batch_runs": 0}, "tags": ["BATCH"], "key": "batch%d" % idx, "nontrivial": True}
+
+    def run(d):
+        res["stats"]["batch_runs"] += 1
+        with monitors.budget(3 * 10 ** 8):
+            try:
+                return _strip(cr.run_games(d))
+            finally:
+                monitors.MON.metering = False
+
+    problems = []
+    try:
+        ref = {nm: run({nm: copy.deepcopy(g)}) for nm, g in pool.items()}          # every game alone, fresh copies
+        d = copy.deepcopy(pool)
+        first = run(d)
+        second = run(d)                                                            # the very same dict object again
+        rev = run({nm: copy.deepcopy(pool[nm]) for nm in reversed(list(pool))})    # other order
+    except monitors.StepBudgetExceeded:
+        return sc.skipped(idx, "budget")
+    for label, got in (("first batch run", first), ("same dict run again", second), ("reversed order", rev)):
+        for nm in pool:
+            for key in (nm, nm + "_no_prune"):
+                if got.get(key) != ref[nm].get(key):
+                    problems.append({"run": label, "entry": key, "problem": "%s: entry %s differs from running that game alone" % (label, key),
+                                     "got": repr(got.get(key))[:300], "alone": repr(ref[nm].get(key))[:300]})
+    if problems:
+        res.update(verdict="violated", what=problems[0]["problem"], witness=problems[:3], case={"batch": idx, "seed": seed})
+    return res
+
+
 def plan(tier, seed):
-    return sc.plan_classes(tier, TABLE, per_q=25, per_t=100, mult_t=8)
+    return sc.plan_classes(tier, TABLE, per_q=25, per_t=100, mult_t=8) + harness.split("BATCH", 60 if tier == "quick" else 600, 10)
 
 
 def run_batch(batch):
     monitors.install()
     for idx in range(batch["start"], batch["start"] + batch["count"]):
         EMIT_START(idx)
+        if batch["cls"] == "BATCH":
+            yield decide_batch(idx, batch["seed"])
+            continue
         rng = games.case_rng(batch["seed"], PID, batch["cls"], idx)
         gd = fig55() if batch["cls"] == "FIG55" else games.gen_class(rng, batch["cls"])
         if gd is None:
@@ -134,6 +189,8 @@ def run_batch(batch):
 
 def replay(case):
     monitors.install()
+    if "batch" in case:
+        return decide_batch(case["batch"], case.get("seed", 0))
     gd = games.dec_game(case["game"])
     an = analysis.Analysis(gd)
     pr, k, removed = run_history(gd, [tuple(x) for x in case["history"]], sc.limit_for(an))
